@@ -57,7 +57,7 @@ def cases(tier, seed):
         kn = storeops.gen_knobs(rng, backends=("fs", "fs+cache"))
         pop = storeops.gen_ops(rng, rng.randrange(4, 25), kn, "c07")
         pop = [o for o in pop if o[0] != "restart"]
-        how = rng.choice(["argument", "config", "argument-over-config", "toggle", "repo-template", "config-reused"])
+        how = rng.choice(["argument", "config", "argument-over-config", "toggle", "repo-template", "config-reused", "create-after-writable"])
         case = {"seed": s, "mode": "read-only", "knobs": kn, "via_config": how == "config", "ro_how": how,
                 "ro_roundtrip": rng.random() < 0.3, "populate": pop,
                 "ops": gen_ro_ops(rng, rng.randrange(3, 30), kn)}
